@@ -37,11 +37,16 @@ type ecSigner struct {
 	priv   *ecdsa.PrivateKey
 	calls  *int
 	failAt *int // 1-based; 0 = never
+	// hook, if set, runs at the start of every call (used to cancel the caller's context in mid-walk)
+	hook *func(call int)
 }
 
 func (s ecSigner) Public() crypto.PublicKey { return &s.priv.PublicKey }
 func (s ecSigner) Sign(r io.Reader, digest []byte, opts crypto.SignerOpts) ([]byte, error) {
 	*s.calls++
+	if s.hook != nil && *s.hook != nil {
+		(*s.hook)(*s.calls)
+	}
 	if *s.failAt != 0 && *s.calls == *s.failAt {
 		return nil, errors.New("bksim: injected signer failure")
 	}
@@ -110,7 +115,7 @@ func loadKeys() error {
 		if err != nil {
 			return err
 		}
-		s := &ecSigner{priv: k, calls: new(int), failAt: new(int)}
+		s := &ecSigner{priv: k, calls: new(int), failAt: new(int), hook: new(func(int))}
 		r.byKind["ES256"] = append(r.byKind["ES256"], &keyPair{kind: "ES256", id: id, priv: *s, pub: *s, signer: s})
 	}
 	ring = r
